@@ -161,7 +161,10 @@ class ReadDataByIdentifier(BaseService):
 
             subpayload = response.data[offset:offset + payload_size]
             offset += payload_size  # Codec must define a __len__ function that matches the encoded payload length.
-            val = codec.decode(subpayload)
+            try:
+                val = codec.decode(subpayload)
+            except Exception as e:
+                raise InvalidResponseException(response, 'Value for data identifier 0x%04x could not be decoded. Exception is : %s' % (did, e))
             response.service_data.values[did] = val
 
         return cast(ReadDataByIdentifier.InterpretedResponse, response)
